@@ -154,6 +154,13 @@ def referenced_names(cfg: Dict[str, Any]) -> Tuple[Set[str], Set[str], Set[str],
                 acts.add(a)
             elif isinstance(a, dict) and isinstance(a.get("type"), str):
                 acts.add(a["type"])
+                # built-in `choose`: its branches reference guards and actions of their own
+                conds = (a.get("params") or {}).get("conditions") if isinstance(a.get("params"), dict) else None
+                if a["type"] in ("xstate.choose", "choose") and isinstance(conds, list):
+                    for br in conds:
+                        if isinstance(br, dict):
+                            add_guard(br.get("guard", br.get("cond")))
+                            add_actions(br.get("actions"))
 
     def add_guard(gd):
         if gd is None:
@@ -252,8 +259,28 @@ def guard_fp(g) -> Any:
             tuple(guard_fp(c) for c in g.children))
 
 
+def _canon_action_cfg(x) -> Any:
+    """Canonical form of an action as written in a config (string / object / list spellings)."""
+    items = x if isinstance(x, list) else ([] if x is None else [x])
+    return [({"type": a} if isinstance(a, str) else a) for a in items]
+
+
 def action_fp(a) -> Any:
-    return (a.type, json.dumps(a.params, sort_keys=True, default=repr) if a.params is not None else None)
+    params = a.params
+    if a.type in ("xstate.choose", "choose") and isinstance(params, dict) and isinstance(params.get("conditions"), list):
+        # the branches keep the spelling they were written in; compare them modulo the documented equivalent spellings
+        from xstate_statemachine.models import GuardDefinition
+
+        def gfp(g):
+            try:
+                return guard_fp(GuardDefinition(g)) if g is not None else None
+            except Exception:  # noqa: BLE001
+                return repr(g)
+
+        params = dict(params, conditions=[
+            {"guard": gfp(br.get("guard", br.get("cond"))), "actions": _canon_action_cfg(br.get("actions"))} if isinstance(br, dict) else br
+            for br in params["conditions"]])
+    return (a.type, json.dumps(params, sort_keys=True, default=repr) if params is not None else None)
 
 
 def fingerprint(machine, resolve: Optional[Callable] = None, custom_ids: bool = True) -> Any:
